@@ -10,8 +10,9 @@ THEOREMS = ["C03.recCheck_iff", "C03.accepted_no_cycle", "C03.user_cycle_iff", "
 RULE = ("one case = one generated grammar (unbiased / mostly non-left-recursive / shaped / LL(1)-ish / hidden-recursion / DFS-bookkeeping "
         "generators, names permuted; 15 % grammars with ProdSequence / ListProds / MapProds keys incl. nullable members and items and recursion THROUGH the "
         "templates in both directions - items / members that start with the container again (a cycle unless brackets consume a "
-        "token first) and right recursion X -> (container, X) | () behind bracketed and bracket-less containers; the reference "
-        "left-recursion test runs on the expanded productions; "
+        "token first) and right recursion X -> (container, X) | () behind bracketed and bracket-less containers; list / map delimiters and assign symbols that are (nullable) non-terminals; the reference "
+        "left-recursion test runs on the expanded productions; layered expression-like grammars of 8-40 levels with "
+        "exponentially many token-free paths (constructor must give its verdict within the line budget); "
         "keys with an empty list of alternatives in recursive and non-recursive grammars; long inputs; two threads on one parser "
         "object for every 40th accepted grammar), constructed with smart_factorization True and False, each followed by every token "
         "string up to the tier's length plus sampled sentences; the real constructor and parse run under a line-event "
@@ -78,6 +79,7 @@ def oracle(case, replies):
 
 def gen_cases(rng, tier):
     yield from ll.gen_long_cases(rng, (150, 700))
+    yield from ll.gen_layered_cases(rng, per_level=1 if tier == "quick" else 4)
     if tier == "quick":
         for i, c in enumerate(ll.gen_ll_cases(rng, 1400, 3, sentences=12, hidden_share=0.22, dfs_share=0.18, tmpl_share=0.15,
                                               diags=(), sent_maxlen=5)):
